@@ -41,6 +41,13 @@ class MinimalSink(object):
         return b''.join(self._parts)
 
 
+class FalsyBytesIO(io.BytesIO):
+    """An in-memory stream whose truth value is False (upload wrappers whose __bool__ means 'has a name', buffers whose
+    __len__ is the number of bytes held): whether a stream was given is not a question of its truth value."""
+    def __bool__(self):
+        return False
+
+
 class _Lifecycle(object):
     """How the simulated caller brackets a writer session: a with-block, explicit open() ... close(), or - for writers on
     the caller's own streams, which need no opening - neither."""
@@ -103,9 +110,10 @@ def steps_program(st, program, sink, with_index, tr, name='out.tdms', after_sess
                     if with_index:
                         streams[iname] = st.fs.stream(iname, 'w+b')
                 else:
-                    streams[name] = io.BytesIO() if sink == 'bytesio' else MinimalSink()
+                    bio = FalsyBytesIO if program.get('falsy_streams') else io.BytesIO
+                    streams[name] = bio() if sink == 'bytesio' else MinimalSink()
                     if with_index:
-                        streams[iname] = io.BytesIO() if sink == 'bytesio' else MinimalSink()
+                        streams[iname] = bio() if sink == 'bytesio' else MinimalSink()
             target = streams[name]
             kw = {'index_file': streams[iname] if with_index else False}
         first = call_no
